@@ -84,6 +84,7 @@ def _gen_build(r, g, class_default):
     data_keys = [f'd{i}' for i in range(n_data)]
     witness = None
     # DATA families (always defined in stage 0 so that references never dangle)
+    list_keys = set()
     for dk in data_keys:
         for si, st in enumerate(stages):
             if si == 0 or r.random() < 0.35:
@@ -91,6 +92,11 @@ def _gen_build(r, g, class_default):
                 c = r.randrange(6)
                 if c == 0:
                     v = f'[{_sv(g.tok(t))}, {_sv(g.tok(t))}]'
+                    if si == 0:
+                        list_keys.add(dk)
+                    elif dk in list_keys and r.random() < 0.6:
+                        # list operators move content of this stage into the list of an earlier one
+                        v = r.choice(['!append ', '!extend ']) + (f'[{_sv(g.tok(t))}]' if r.random() < 0.7 else f'[!unsafe {_sv(g.tok("U"))}, {_sv(g.tok(t))}]')
                 elif c == 1:
                     v = f'{{p: {_sv(g.tok(t))}}}'
                 elif c == 2 and si > 0:
@@ -259,7 +265,7 @@ def _gen_build(r, g, class_default):
     if r.random() < 0.22:
         si = r.randrange(n_stage)
         st = stages[si]
-        how = r.choice(['source', 'meta', 'below', 'included', 'twice', 'twice', 'marked_below', 'marked_merged', 'key_below'])
+        how = r.choice(['source', 'meta', 'below', 'included', 'twice', 'twice', 'marked_below', 'marked_merged', 'key_below', 'marked_container', 'merged_plain'])
         if how == 'source' and st['taint'] == 'U':
             st['items'].append(['w0', _call(g, 'U', r.choice(['call', 'bind']))])
             witness = how
@@ -280,6 +286,18 @@ def _gen_build(r, g, class_default):
             inner = r.choice([f"!call:simrec.f_{g.tok('U')}{{{{'safe': True}}}} {{}}", f"!bind:simrec.f_{g.tok('U')}{{{{'safe': True}}}} {{}}",
                               f"!import{{{{'safe': True}}}} simrec.v_{g.tok('U')}", "!eval{{'safe': True}} " + emit.scalar_text("'" + g.tok('U') + "'")])
             st['items'].append(['w0', r.choice(['!unsafe {k: [' + inner + ']}', '!unsafe [{k: ' + inner + '}]', '!unsafe {k: ' + inner + '}'])])
+            witness = how
+        elif how == 'marked_container':
+            # an explicitly "safe" container below !unsafe: neither it nor what it holds becomes safe
+            inner = r.choice([_call(g, 'U', 'call'), '!import simrec.v_' + g.tok('U')])
+            st['items'].append(['w0', r.choice(["!unsafe {k: !metadata{{'safe': True}} {c: " + inner + "}}", "!unsafe [!metadata{{'safe': True}} [" + inner + "]]",
+                                                "!unsafe {k: !metadata{{'safe': True}} {m: {c: [" + inner + "]}}}"])])
+            witness = how
+        elif how == 'merged_plain' and n_stage >= 2:
+            # an unmarked dynamic node in a mapping that another stage marks !unsafe
+            sj = r.choice([j for j in range(n_stage) if j != si])
+            st['items'].append(['w0', '{c: ' + r.choice([f"!call:simrec.f_{g.tok('U')} {{}}", '!import simrec.v_' + g.tok('U'), '{d: [' + f"!bind:simrec.f_{g.tok('U')} {{}}" + ']}']) + '}'])
+            stages[sj]['items'].append(['w0', '!unsafe {z: 1}'])
             witness = how
         elif how == 'marked_merged' and n_stage >= 2:
             # the node carries an explicit "safe" mark; the mapping it lives in is marked !unsafe by another stage
@@ -332,7 +350,8 @@ def _gen_build(r, g, class_default):
     if not any(src.get('fails') for src in sources) and r.random() < 0.2:
         # the same sources handed over in one call, safety given per source or (when they all agree) once for all
         api = 'multi_scalar' if len({src['safe'] for src in sources}) == 1 and r.random() < 0.5 else 'multi_list'
-    return {'sources': sources, 'witness': witness, 'api': api}
+    # how the merged tree is evaluated: Config(tree), a pickled / deep-copied tree, or an evaluation context used directly
+    return {'sources': sources, 'witness': witness, 'api': api, 'eval_route': r.choice(['config'] * 5 + ['pickle', 'deepcopy', 'evalctx'])}
 
 
 def _sched_spec(r):
@@ -374,7 +393,7 @@ def _tokens_in(v, out):
     return out
 
 
-def _executed_outputs(cfg, out):
+def _executed_outputs(cfg, out, source=None):
     """Tokens that executed code put into the final config: partials anywhere; results of eval / f-string / import
     nodes, identified by the kind of the node in the merged source tree the config keeps."""
     import functools
@@ -400,12 +419,13 @@ def _executed_outputs(cfg, out):
             for i, x in enumerate(v):
                 child = node.ayns.get_child(i, None) if isinstance(node, ComposedNode) else None
                 walk(x, child, depth + 1)
-    walk(cfg, getattr(cfg, '_source', None))
+    walk(cfg, source if source is not None else getattr(cfg, '_source', None))
     return out
 
 
 def _client(th, out):
-    from awesomeyaml import Builder, Config, errors
+    import pickle
+    from awesomeyaml import Builder, Config, EvalContext, errors
     tname = None
 
     def run():
@@ -439,9 +459,17 @@ def _client(th, out):
                         if not src.get('fails'):
                             raise
                 root = b.build()
-                cfg = Config(root)
+                route = bd.get('eval_route', 'config')
+                if route == 'pickle':
+                    root = pickle.loads(pickle.dumps(root))
+                elif route == 'deepcopy':
+                    root = copy.deepcopy(root)
+                if route == 'evalctx':
+                    cfg = EvalContext().evaluate(root)
+                else:
+                    cfg = Config(root)
                 rec['status'] = 'ok'
-                rec['out_tokens'] = _executed_outputs(cfg, [])
+                rec['out_tokens'] = _executed_outputs(cfg, [], root if route == 'evalctx' else None)
                 rec['all_tokens'] = sorted(set(_tokens_in(observe.plain(dict(cfg)) if False else _plainish(cfg), [])))
             except Exception as e:
                 rec['status'] = 'error'
@@ -580,7 +608,27 @@ def execute(sc):
     return res
 
 
+def _still_meaningful(c):
+    """A shrunk scenario must keep what gives its tokens their meaning: the call of a 'marked_merged' witness carries a U
+    token only because another stage marks its mapping !unsafe."""
+    for th in c['threads']:
+        for bd in th['builds']:
+            if bd.get('witness') in ('marked_merged', 'merged_plain'):
+                texts = [src.get('text', '') + src.get('stream', '') + th['files'].get(src.get('path'), '') for src in bd['sources']]
+                for _ in range(3):      # files the sources include (by name), a few levels deep
+                    texts += [t for fn, t in th['files'].items() if t not in texts and any(fn in x for x in texts)]
+                if any('w0: {c:' in t for t in texts) and not any('w0: !unsafe' in t for t in texts):
+                    return False
+    return True
+
+
 def shrink(sc):
+    for c in _shrink(sc):
+        if _still_meaningful(c):
+            yield c
+
+
+def _shrink(sc):
     if len(sc['threads']) > 1:
         for i in range(len(sc['threads'])):
             c = copy.deepcopy(sc)
